@@ -129,6 +129,8 @@ def run_case(ctx, g, rng):
     d = rng.choice([":", ":", ":", "/", "::", "_"])
     alpha = ALPHA + (["obo:go", "x:"] if d != ":" else ["a.b", "a/b"])
     names = rng.sample(alpha, k=len(alpha))
+    if rng.random() < 0.2:
+        names.insert(rng.randrange(max(1, len(names) - 4), len(names) + 1), "")  # the default namespace as a (soon) known name
     recs = []
     for i in range(n):
         p = names.pop()
